@@ -504,7 +504,7 @@ class VtkProfile(StoreProfile):
     )
 
     def _draw_config(self, rng):
-        return {
+        cfg = {
             "family": rng.choice(["dyadic", "nm", "nm"]),
             "steps": rng.randint(3, 20),
             "npaths": rng.randint(1, 3),
@@ -514,7 +514,18 @@ class VtkProfile(StoreProfile):
             "max_subs": rng.choice([0, 1, 3]),
             "faults": sorted(rng.sample(["lose_sidecar", "restart", "truncate"], rng.randint(0, 3))),
             "foreign": rng.random() < 0.3,
+            "longcoord": False,
         }
+        if rng.random() < 0.06:
+            # generic sixteen-digit corners at unit scale. The recorded finding C16/read.raised/.../txt-long-coordinates
+            # (text form + subregions, replayed from findings/C16) is avoided: either no text form or no subregions
+            cfg["longcoord"] = True
+            cfg["family"] = "dyadic"
+            if rng.random() < 0.5:
+                cfg["reps"] = [r for r in cfg["reps"] if r != "txt"] or ["bin"]
+            else:
+                cfg["max_subs"] = 0
+        return cfg
 
     def gen_op(self, rng, st):
         cfg = st.cfg
@@ -525,6 +536,16 @@ class VtkProfile(StoreProfile):
         paths = sorted(st.paths)
         if not [s for s, (_, f) in st.f.items() if f.mesh.region.ndim == 3] or (len(st.f) < cfg["nfields"] and rng.random() < 0.35):
             o = self.draw_field(rng, st, out, 3, 150, cfg["max_subs"], False, cfg["reps"])
+            if cfg.get("longcoord"):
+                # corners with all sixteen digits at unit scale (the coordinates of every other run survive
+                # the ten digits of the text form): region and subregions shifted by one generic vector
+                sh = [rng.uniform(-3.0, 3.0) for _ in range(3)]
+                m = o["mesh"]
+                m["p1"] = [a + d for a, d in zip(m["p1"], sh)]
+                m["p2"] = [a + d for a, d in zip(m["p2"], sh)]
+                m["subs"] = [[nm, [a + d for a, d in zip(lo, sh)], [a + d for a, d in zip(hi, sh)]] for nm, lo, hi in m["subs"]]
+                m.pop("intcorners", None)
+                m.pop("intsubs", None)
             o["value"] = {"kind": "idx", "step": rng.choice([1.0, 0.5, -2.0])} if rng.random() < 0.6 else {"kind": "wide", "seed": rng.randrange(2**31), "emax": 100, "specials": []}
             o["valid"] = {"kind": "mask", "seed": rng.randrange(2**31), "p": rng.choice([0.2, 0.7])} if rng.random() < 0.7 else None
             o["unit"] = None  # not promised by C16
